@@ -434,6 +434,62 @@ pub fn run_long(c: &LongCase, dir: &Path, _findings: &Findings) -> Result<CaseOu
         Ok(m) => return fail("recovery_blob/records-differ", format!("validate_every={}: {} records vs {} (end {:?})", c.validate_every, m.records.len(), orig.records.len(), m.end)),
         Err(e) => return fail("harness/parse", e.to_string()),
     }
+    // several ISOLATED damaged records in one blob: header flips that leave the size fields intact (timestamp), separated by
+    // intact records; with skipping every other record is kept, without it the prefix before the first damage.
+    // (Two adjacent damaged records end the recovery - the statement only promises to get past an isolated one.)
+    if orig.records.len() >= 10 {
+        let n = orig.records.len();
+        let victims = [n / 5, 2 * n / 5, 4 * n / 5];
+        let mut bytes = std::fs::read(&blob).map_err(|e| Failure { clause: "harness/read".into(), detail: e.to_string(), step: 0, op: String::new() })?;
+        for v in victims {
+            let (s0, _) = rec_class_range(&orig.records[v], c.keylen, 10);
+            bytes[s0 as usize] ^= 0x5a;
+        }
+        let multi = dir.join("multi-damaged.blob");
+        std::fs::write(&multi, &bytes).map_err(|e| Failure { clause: "harness/write".into(), detail: e.to_string(), step: 0, op: String::new() })?;
+        if tools::validate_blob(&multi).is_ok() {
+            return fail("validate_blob/accepts-damaged", "three flipped timestamps accepted".into());
+        }
+        let sig = |r: &ParsedRec| (r.hdr.key.clone(), r.hdr.timestamp, r.hdr.flags, blobfmt::parse_meta(&r.meta), r.data.clone());
+        for skip in [false, true] {
+            let out = dir.join(if skip { "multi-skip.blob" } else { "multi-noskip.blob" });
+            if let Err(e) = tools::recovery_blob(&multi, &out, c.validate_every as usize, skip) {
+                return fail("recovery_blob/err", format!("several damaged records, skip={}: {:#}", skip, e));
+            }
+            let rec = match blobfmt::parse_blob_file(&out, c.keylen) {
+                Ok(p) if p.end == ParseEnd::Clean => p,
+                Ok(p) => return fail("recovery_blob/output-unparsable", format!("several damaged records, skip={}: {:?}", skip, p.end)),
+                Err(e) => return fail("harness/parse", e.to_string()),
+            };
+            let want: Vec<_> = if skip { orig.records.iter().enumerate().filter(|(i, _)| !victims.contains(i)).map(|(_, r)| sig(r)).collect() } else { orig.records[..victims[0]].iter().map(sig).collect() };
+            let got: Vec<_> = rec.records.iter().map(sig).collect();
+            if got != want {
+                return fail(if skip { "recovery_blob/lost-record-after-skipped" } else { "recovery_blob/lost-record-before-damage" }, format!("three isolated damaged records, skip={}: output has {} records, expected {}", skip, got.len(), want.len()));
+            }
+            let _ = std::fs::remove_file(&out);
+        }
+        labels.insert("several_damaged_records".into());
+        let _ = std::fs::remove_file(&multi);
+    }
+    // an index file describes one state of its blob: next to a blob that lost its last record (cut exactly at a record
+    // boundary, so the blob itself still validates) the index must be rejected
+    let index = sut::index_path(&src, 0);
+    if index.exists() && orig.records.len() >= 2 {
+        let vdir = dir.join("index-vs-shorter-blob");
+        let _ = std::fs::create_dir_all(&vdir);
+        let bytes = std::fs::read(&blob).map_err(|e| Failure { clause: "harness/read".into(), detail: e.to_string(), step: 0, op: String::new() })?;
+        let cut = orig.records.last().unwrap().pos as usize;
+        let _ = std::fs::write(sut::blob_path(&vdir, 0), &bytes[..cut]);
+        let _ = std::fs::copy(&index, sut::index_path(&vdir, 0));
+        if let Err(e) = validate_index_dyn(c.keylen, &index) {
+            return fail("validate_index/rejects-wellformed", format!("{:#}", e));
+        }
+        if tools::validate_blob(&sut::blob_path(&vdir, 0)).is_ok() && validate_index_dyn(c.keylen, &sut::index_path(&vdir, 0)).is_ok() {
+            return fail("validate_index/accepts-index-of-another-blob-state", format!("the blob next to the index holds {} records, the index describes {}", orig.records.len() - 1, orig.records.len()));
+        }
+        labels.insert("index_vs_shorter_blob".into());
+        let _ = std::fs::remove_dir_all(&vdir);
+    }
     // migration (version 1 -> 1, or 0 -> 1 with the key bytes reversed back)
     if c.v0 {
         let mut bytes = std::fs::read(&blob).map_err(|e| Failure { clause: "harness/read".into(), detail: e.to_string(), step: 0, op: String::new() })?;
@@ -521,7 +577,7 @@ pub fn run(ctx: &RunCtx) -> PropResult {
     PropResult {
         report,
         level: "fault_enumeration",
-        rule: "A generated single-blob history (key lengths 4/8/32/128 so that read_index applies; values across the 4 KiB / 80 KiB thresholds; metadata; deletion markers) is written by the storage. Undamaged: validate_blob and validate_index accept, read_index reports exactly the (key, blob_offset) pairs found by the harness's own parser, migrate_blob output is record-for-record equal. Then one generated damage: truncation strictly inside a chosen record at a position class (blob header / record header / meta / data), or one XOR-ed byte in one of 15 position classes (blob magic, version, flags; record magic, key length, key, meta_size, data_size, flags, blob_offset, timestamp, data checksum, header checksum; meta; data). Oracle: validate_blob rejects; recovery_blob (skip false and true) succeeds unless the blob header itself is damaged, its output validates, parses, starts with every intact record that precedes the damage, with skip also holds every record after it when the damage leaves the size fields intact, contains nothing but intact originals in order, every header's blob_offset equals its position, and a Storage opened on the output serves every contained record (read, read_with, read_all + load, load_data/load_meta) with the original bytes. An enumerated phase (tools-long) writes 1500-2600 small records (markers, metas) and requires that recovery_blob and migrate_blob of the UNDAMAGED blob succeed and reproduce it record for record for validate_every in {0, 1, 7, 64, 1024, 1025, 1030, 1200, n-1, n, n+1, 5000}, also from a version-0 source (records stored under reversed keys, header version patched to 0): the version-1 output must carry the logical keys with valid checksums and a Storage opened on it must serve them. Non-trivial = the damage hits a record that is not the last one (tools); more than 1024 records (tools-long). distinct = FNV hash of the serialized case.".into(),
+        rule: "A generated single-blob history (key lengths 4/8/32/128 so that read_index applies; values across the 4 KiB / 80 KiB thresholds; metadata; deletion markers) is written by the storage. Undamaged: validate_blob and validate_index accept, read_index reports exactly the (key, blob_offset) pairs found by the harness's own parser, migrate_blob output is record-for-record equal. Then one generated damage: truncation strictly inside a chosen record at a position class (blob header / record header / meta / data), or one XOR-ed byte in one of 15 position classes (blob magic, version, flags; record magic, key length, key, meta_size, data_size, flags, blob_offset, timestamp, data checksum, header checksum; meta; data). Oracle: validate_blob rejects; recovery_blob (skip false and true) succeeds unless the blob header itself is damaged, its output validates, parses, starts with every intact record that precedes the damage, with skip also holds every record after it when the damage leaves the size fields intact, contains nothing but intact originals in order, every header's blob_offset equals its position, and a Storage opened on the output serves every contained record (read, read_with, read_all + load, load_data/load_meta) with the original bytes. An enumerated phase (tools-long) writes 1500-2600 small records (markers, metas) and requires that recovery_blob and migrate_blob of the UNDAMAGED blob succeed and reproduce it record for record for validate_every in {0, 1, 7, 64, 1024, 1025, 1030, 1200, n-1, n, n+1, 5000}, also from a version-0 source (records stored under reversed keys, header version patched to 0): the version-1 output must carry the logical keys; in the same phase three separated records get a flipped timestamp byte: recovery with skipping keeps exactly all others, without skipping the prefix; and an index copied next to a blob cut at its last record boundary must be rejected by validate_index; the version-1 output must carry the logical keys with valid checksums and a Storage opened on it must serve them. Non-trivial = the damage hits a record that is not the last one (tools); more than 1024 records (tools-long). distinct = FNV hash of the serialized case.".into(),
         assumptions: common_assumptions(),
     }
 }
